@@ -88,6 +88,12 @@ def job(prefix, group, codec, key, seq, api=0, finish=0, cb=0, rnd=(0,), ln=1, r
                bound="%s; history %s%s is a harness constant; symbol length %d; all source data symbolic" % (what, list(seq), " + finish" if finish else "", ln))
 
 
+def pick(name, modulus, residue):
+    """a slice of a job family that does not correlate with the received-set bit patterns (the families enumerate subsets in order)"""
+    import zlib
+    return zlib.crc32(name.split(".", 1)[-1].encode()) % int(modulus) == int(residue) % int(modulus)
+
+
 def dedupe(js):
     seen, out = set(), []
     for j in js:
@@ -261,7 +267,7 @@ def release_jobs(tier, seed, prop=None, prefix="rel", group_prefix="lbc_release"
     for key, cnt in fam:
         k, r = LDPC[key][0], LDPC[key][1]
         n = k + r
-        hist = [list(range(k, n)) + list(range(k))] + perms_with_dups(n, cnt, rng, dup=False)
+        hist = [list(range(k, n)) + list(range(k)), list(range(n))] + perms_with_dups(n, cnt, rng, dup=False)   # repairs first; sources first (late repair symbols after completion); shuffles
         for h in hist:
             for cut in range(0, n + 1):
                 for fin in (0, 1):
